@@ -389,6 +389,7 @@ func (H) Execute(scAny any, cfg simrt.Config, st *core.Stats) (*simrt.Outcome, *
 	nt := len(sc.Tasks) + len(sc.Phase2)
 	nk := sc.Keys + 1 // one more key for the clearer
 	clearerDone := sc.Clearer == 0
+	clearing := false // the root task is inside the between-phase ClearKey calls
 	r := &run{writers: make([]int, nk), readers: make([]int, nk), witness: make([]int, nk),
 		events: make([][]event, nt), finished: make([]bool, nt), stalled: make([]bool, nt)}
 	switch {
@@ -443,16 +444,30 @@ func (H) Execute(scAny any, cfg simrt.Config, st *core.Stats) (*simrt.Outcome, *
 		if len(sc.Phase2) > 0 {
 			// nobody holds or awaits any key here: the only situation in which the
 			// statement covers ClearKey
+			clearing = true
 			for _, k := range sc.Clear {
 				simrt.Yield()
 				r.l.clear(k)
 			}
+			clearing = false
 			phase(len(sc.Tasks), sc.Phase2)
 		}
 	})
 	out := s.Run()
 	if v := core.OutcomeViolation(out); v != nil {
 		return out, v
+	}
+	if clearing && !out.Truncated {
+		// every task of the first phase has finished, nobody holds or awaits any key,
+		// and ClearKey of such a key did not return
+		return out, &core.Violation{Signature: "clearkey-blocked", Detail: "ClearKey of a key that nobody holds or awaits did not return: " + strings.Join(out.StuckTasks, ", ")}
+	}
+	if r.viol != "" && out.Truncated {
+		sig := "mutual-exclusion"
+		if strings.HasPrefix(r.viol, "TryLockKey of a key nobody") {
+			sig = "try-failed-while-free"
+		}
+		return out, &core.Violation{Signature: sig, Detail: r.viol}
 	}
 	if out.Truncated {
 		anyStall := false
@@ -546,18 +561,25 @@ func (r *run) check(sc *Scenario, out *simrt.Outcome) *core.Violation {
 			if b.task == a.task && b.from == a.from {
 				continue
 			}
-			if b.key != a.key || !incompatible(a.mode, b.mode) {
+			if b.key != a.key {
 				continue
 			}
 			if b.task == a.task {
 				// own outer hold of the same key cannot occur: nesting is on higher keys only
 				continue
 			}
-			if b.held && b.hfrom <= a.from && b.hto >= a.tryRet {
-				heldThroughout = true
-			}
+			// "free and uncontended": any other task that holds the key or is inside a
+			// call on it during the try is contention, compatible or not (a TryRLock may
+			// fail while another reader is arriving or leaving - sync.RWMutex documents
+			// that a try may fail spuriously under contention)
 			if !(b.to < a.from || b.from > a.tryRet) {
 				quiet = false
+			}
+			if !incompatible(a.mode, b.mode) {
+				continue
+			}
+			if b.held && b.hfrom <= a.from && b.hto >= a.tryRet {
+				heldThroughout = true
 			}
 		}
 		if heldThroughout && a.ok {
